@@ -595,8 +595,9 @@ func c01Judge(e *c01Env) (violated bool) {
 	}
 	decodeErrs := append([]string(nil), e.ch.decodeErrors...)
 	e.ch.mu.Unlock()
-	var keep, cuts int64
+	var keep, histKeep, cuts int64
 	for _, s := range stats {
+		histKeep += s.HistKeep
 		r.Count("agent.recent_send_success", s.RecentSuccess)
 		r.Count("agent.recent_send_keep", s.RecentKeep)
 		r.Count("agent.recent_send_failed", s.RecentFailed)
@@ -665,6 +666,7 @@ func c01Judge(e *c01Env) (violated bool) {
 		"agent-restart": e.restarts > 0,
 		"late-recent":   rs.lateRecent > 0 || keep > 0,
 		"conveyor-full": full > 0,
+		"historic-keep": histKeep > 0, // a historic send answered without discard and without RPC error
 	}
 	for _, m := range sc.Mandatory {
 		if effect[m] {
@@ -674,7 +676,7 @@ func c01Judge(e *c01Env) (violated bool) {
 		r.Count("effect_missing."+m, 1)
 		// the quick schedules must exercise the core fault classes (a schedule that never reaches the
 		// mutated path catches nothing); in the thorough tier a class that did not fire is only counted
-		if strings.HasPrefix(sc.Profile, "q-") && (m == "failed-insert" || m == "cut" || m == "kill" || m == "agent-restart") {
+		if strings.HasPrefix(sc.Profile, "q-") && (m == "failed-insert" || m == "cut" || m == "kill" || m == "agent-restart" || m == "historic-keep") {
 			r.Inconclusive(fmt.Sprintf("scenario %s: fault class %q of the schedule never took effect", sc.Name, m))
 		}
 	}
